@@ -144,6 +144,7 @@ func (Prop) Run(t *core.Tape, o core.RunOpts) *core.Result {
 			calls = 130/n + 1
 		}
 	}
+	sched.ClearPending()
 	resetPackages() // every run starts from the package's initial state
 	s := sched.New(t, sched.Config{Strategy: strategy, Clock: clock, MaxSteps: budget, Keep: o.KeepTrace})
 	s.Salt = salt
